@@ -137,7 +137,7 @@ def ls4(F, R):
             R.require(not problems, fn, key, "; ".join(sorted(set(problems))), fn.loc(ncs[0][0]), okdetail="walk skeleton ok (%d next_cluster site(s))" % len(ncs))
 
 
-@rule("LS5", ["C06", "C18"], floor=3,
+@rule("LS5", ["C06", "C18", "C17"], floor=3,
       doc="OnDiskDirEntry::get_entry: start cluster = hi<<16|lo for FAT32, lo for FAT16; cluster 0 on a directory entry means ROOT_DIR for both FAT types (the mapping does not depend on the FAT type)")
 def ls5(F, R):
     fn = F.fn("OnDiskDirEntry::get_entry")
@@ -183,6 +183,16 @@ def ls5(F, R):
         g16, _ = guarded(fn, c16[0][0], lambda g: g.kind == "bool" and g.term[0] == "cmp" and g.term[1] == "Eq" and g.truth is False and "Fat32" in tstr(g.term) and "fat_type" in tstr(g.term))
         ok = g32 and g16
     R.require(ok, fn, "cluster-per-fat-type", "get_entry must use first_cluster_fat32 exactly for FatType::Fat32 and first_cluster_fat16 otherwise", fn.loc(0))
+    # the 11 name bytes are taken over verbatim (the long-name checksum is computed over the bytes as stored)
+    cps = [(b, t) for b, t in fn.calls() if (callee_of(t) or "").endswith("copy_from_slice")]
+    okn = False
+    if len(cps) == 1:
+        d = tstr(fn.term_of_operand(cps[0][1]["args"][0], cps[0][0]))
+        src = fn.term_of_operand(cps[0][1]["args"][1], cps[0][0])
+        rng = find_sub(src, ("agg", "Range", ["$a", "$b"]))
+        okn = d.endswith("name.contents") and rng is not None and rng["$a"][:2] == ("c", 0) and rng["$b"][:2] == ("c", 11) and has_sub(src, lambda q: q[0] == "place" and "data" in [e for e in q[2] if isinstance(e, str)] and strip_refs(q[1])[:2] == ("arg", 1))
+    extra = [fn.loc(b, i) for b, i, s in fn.stmts() if s["k"] == "Assign" and s["p"]["proj"] and "contents" in [e[2] for e in s["p"]["proj"] if e[0] == "field"] and any(e[0] in ("index", "constindex") for e in s["p"]["proj"])]
+    R.require(okn and not extra, fn, "name-verbatim", "get_entry must copy bytes 0..11 of the slot into the name unchanged and must not patch single name bytes afterwards (stores at %s): listing, lookup and the long-name checksum all work on the stored bytes" % extra, fn.loc(0))
     f32 = F.fn("OnDiskDirEntry::first_cluster_fat32")
     rets = [f32.term_of_rvalue(s["rv"], b) for b, i, s in f32.stmts() if s["k"] == "Assign" and s["p"]["l"] == 0 and not s["p"]["proj"]]
     pat = ("agg", "ClusterId", [("bin", "BitOr", ("bin", "Shl", ("call", "From::from", [("call", "first_cluster_hi", "_")]), ("c", 16)), ("call", "From::from", [("call", "first_cluster_lo", "_")]))])
